@@ -144,10 +144,18 @@ class BaseCollection(BaseDisplayRepr):
     def children(self, children):
         """Set Collection children."""
         # pylint: disable=protected-access
+        # check the input before the current children are released
+        obj_list = check_format_input_obj(
+            children,
+            allow="sensors+sources+collections",
+            recursive=False,
+            typechecks=True,
+        )
+        self._check_addable(obj_list, override_parent=True)
         for child in self._children:
             child._parent = None
         self._children = []
-        self.add(*children, override_parent=True)
+        self.add(*obj_list, override_parent=True)
 
     @property
     def children_all(self):
@@ -163,6 +171,9 @@ class BaseCollection(BaseDisplayRepr):
     def sources(self, sources):
         """Set Collection sources."""
         # pylint: disable=protected-access
+        # check the input before the current sources are released
+        src_list = format_obj_input(sources, allow="sources")
+        self._check_addable(src_list, override_parent=True)
         new_children = []
         for child in self._children:
             if child in self._sources:
@@ -170,7 +181,6 @@ class BaseCollection(BaseDisplayRepr):
             else:
                 new_children.append(child)
         self._children = new_children
-        src_list = format_obj_input(sources, allow="sources")
         self.add(*src_list, override_parent=True)
 
     @property
@@ -187,6 +197,9 @@ class BaseCollection(BaseDisplayRepr):
     def sensors(self, sensors):
         """Set Collection sensors."""
         # pylint: disable=protected-access
+        # check the input before the current sensors are released
+        sens_list = format_obj_input(sensors, allow="sensors")
+        self._check_addable(sens_list, override_parent=True)
         new_children = []
         for child in self._children:
             if child in self._sensors:
@@ -194,7 +207,6 @@ class BaseCollection(BaseDisplayRepr):
             else:
                 new_children.append(child)
         self._children = new_children
-        sens_list = format_obj_input(sensors, allow="sensors")
         self.add(*sens_list, override_parent=True)
 
     @property
@@ -211,6 +223,9 @@ class BaseCollection(BaseDisplayRepr):
     def collections(self, collections):
         """Set Collection collections."""
         # pylint: disable=protected-access
+        # check the input before the current collections are released
+        coll_list = format_obj_input(collections, allow="collections")
+        self._check_addable(coll_list, override_parent=True)
         new_children = []
         for child in self._children:
             if child in self._collections:
@@ -218,7 +233,6 @@ class BaseCollection(BaseDisplayRepr):
             else:
                 new_children.append(child)
         self._children = new_children
-        coll_list = format_obj_input(collections, allow="collections")
         self.add(*coll_list, override_parent=True)
 
     @property
@@ -327,30 +341,39 @@ class BaseCollection(BaseDisplayRepr):
             typechecks=True,
         )
 
+        # check all objects before changing anything
+        self._check_addable(obj_list, override_parent)
+
         # assign parent
         for obj in obj_list:
-            if isinstance(obj, Collection):
-                # no need to check recursively with `collections_all` if obj is already self
-                if obj is self or self in obj.collections_all:
-                    raise MagpylibBadUserInput(
-                        f"Cannot add {obj!r} because a Collection must not reference itself."
-                    )
-            if obj._parent is None:
-                obj._parent = self
-            elif override_parent:
+            if obj._parent is not None:
                 obj._parent.remove(obj)
-                obj._parent = self
-            else:
-                raise MagpylibBadUserInput(
-                    f"Cannot add {obj!r} to {self!r} because it already has a parent.\n"
-                    "Consider using `override_parent=True`."
-                )
+            obj._parent = self
 
         # set attributes
         self._children += obj_list
         self._update_src_and_sens()
 
         return self
+
+    def _check_addable(self, obj_list, override_parent):
+        """raise if one of the objects cannot become a child of this collection"""
+        for ind, obj in enumerate(obj_list):
+            if any(obj is other for other in obj_list[:ind]):
+                raise MagpylibBadUserInput(
+                    f"Cannot add {obj!r} to {self!r} more than once."
+                )
+            if isinstance(obj, Collection):
+                # no need to check recursively with `collections_all` if obj is already self
+                if obj is self or self in obj.collections_all:
+                    raise MagpylibBadUserInput(
+                        f"Cannot add {obj!r} because a Collection must not reference itself."
+                    )
+            if obj._parent is not None and not override_parent:
+                raise MagpylibBadUserInput(
+                    f"Cannot add {obj!r} to {self!r} because it already has a parent.\n"
+                    "Consider using `override_parent=True`."
+                )
 
     def _update_src_and_sens(self):
         """updates sources, sensors and collections attributes from children"""
